@@ -320,6 +320,9 @@ pub struct PairInfo {
     pub dist: f64,
     pub limit: f32,
     pub verdict: PairVerdict,
+    /// a file mesh (bundled STL) is involved and either the decision margin is below 5 mm or it is a touch-only decision on
+    /// intersecting surfaces (see known finding C10-fine-mesh-f32)
+    pub shallow: bool,
 }
 
 /// Body handle for the oracle.
@@ -401,7 +404,7 @@ pub fn decide_pair(scene: &Scene, b: &Built, j: &[f64; 6], pair: (BodyId, BodyId
     let limit = table.limit(ia, ib);
     let (lo, hi) = (ia.min(ib), ia.max(ib));
     if limit <= NEVER_COLLIDES {
-        return PairInfo { a: lo, b: hi, dist: f64::NAN, limit, verdict: PairVerdict::Exempt };
+        return PairInfo { a: lo, b: hi, dist: f64::NAN, limit, verdict: PairVerdict::Exempt, shallow: false };
     }
     let pa = place(scene, b, j, pair.0);
     let pb = place(scene, b, j, pair.1);
@@ -448,7 +451,23 @@ pub fn decide_pair(scene: &Scene, b: &Built, j: &[f64; 6], pair: (BodyId, BodyId
             PairVerdict::Free
         }
     };
-    PairInfo { a: lo, b: hi, dist: d, limit, verdict }
+    // decision margin for pairs that involve a file mesh
+    let file_mesh = matches!(pa.mesh, Geom::Data(..)) || matches!(pb.mesh, Geom::Data(..));
+    let shallow = file_mesh && {
+        const M: f64 = 5e-3;
+        if limit == 0.0 {
+            if d == 0.0 {
+                // intersecting file meshes in touch-only mode: the engine's triangle-triangle test misses genuine intersections of
+                // thin, nearly parallel triangles (observed up to > 1 cm deep), so the whole class is covered by the finding
+                true
+            } else {
+                d < M
+            }
+        } else {
+            (d - limit as f64).abs() < M
+        }
+    };
+    PairInfo { a: lo, b: hi, dist: d, limit, verdict, shallow }
 }
 
 // ---------------------------------------------------------------------------------------------
